@@ -201,7 +201,7 @@ fn engine_conc(args: &Args) -> i32 {
             // hold each thread at each of its count operations (before and after) until the others are done
             let ords = st.last_ords.clone();
             for (tid, cnt) in ords.iter().enumerate() {
-                for at in 0..(*cnt).min(24) {
+                for at in 0..(*cnt).min(if cfg!(miri) { 6 } else { 24 }) {
                     for phase in 0..2u8 {
                         conc::set_pause(tid as u8, at, phase);
                         let (r, _, _) = run_scn(k, &mut st);
